@@ -79,11 +79,14 @@ THEOREMS = {
     "conj": "C15_conj, C15_rejects_conj, C15_rejects_not_complex_planes",
     "kronecker_prod": "C15_kronecker_prod, C15_kronecker_is_kronecker, C15_rejects_kronecker_prod",
     "norm_sqr": "C15_norm_sqr",
-    "elementwise_division": "C15_elementwise_division, C15_rejects_elementwise_division, C15_scaled_operand_range, C15_rejects_field_not_complex",
-    "absolute_value": "C15_absolute_value, C15_hypot, C15_rejects_field_not_complex",
-    "sigmoid": "C15_sigmoid, C15_rejects_sigmoid, C15_sigmoid_exp_bounded",
-    "scalar_divide": "C15_scalar_divide, C15_scaled_operand_range",
-    "inverse": "C15_inverse, C15_scaled_operand_range, C15_rejects_field_not_complex",
+    # extension round X2: `*_entry` = the tensor function IS the scalar function of QV.Model.CplxScalar (C.invH, C.divH, C.sdivH, C.absH,
+    # C.csigmoidH; shared with the gradient model of C03) at every entry, any carrier; `*H_eq` = that scalar function is the textbook formula over R
+    "elementwise_division": "C15_elementwise_division, C15_rejects_elementwise_division, C15_scaled_operand_range, C15_rejects_field_not_complex, "
+                            "C15_elementwise_division_entry, C15_divH_eq",
+    "absolute_value": "C15_absolute_value, C15_hypot, C15_rejects_field_not_complex, C15_absolute_value_entry, C15_absH_eq",
+    "sigmoid": "C15_sigmoid, C15_rejects_sigmoid, C15_sigmoid_exp_bounded, C15_sigmoid_entry, C15_csigmoidH_eq",
+    "scalar_divide": "C15_scalar_divide, C15_scaled_operand_range, C15_scalar_divide_entry, C15_sdivH_eq",
+    "inverse": "C15_inverse, C15_scaled_operand_range, C15_rejects_field_not_complex, C15_inverse_entry, C15_invH_eq, C15_invH_operand_range",
     "norm": "C15_norm",
 }
 REQUIRED_THEOREMS = sorted({t.strip() for v in THEOREMS.values() for t in v.split(",")} | {"C15_dec_ops", "C15_dec_sums"})
